@@ -75,6 +75,19 @@ NoTbl == [rows |-> 0, cols |-> 0, hm |-> <<>>, vm |-> <<>>, mp |-> <<>>, rc |-> 
 
 \* ------------------------------------------------------------ alphabets
 Wrappers(f) == IF f = "docx" THEN {"r", "span", "link", "ins", "sdt"} ELSE {"r", "span", "link"}
+\* Inline containers nested in one another, written outer>inner (depth 2..3).  DOCX: hyperlink,
+\* tracked insertion, run-level content control, smart tag, simple field and bidirectional
+\* override in every order of two (a hyperlink never inside a hyperlink), a content control in
+\* a content control, and three levels.  ODT: span / link nestings (text:a inside text:a is not
+\* legal) and text:ruby, whose ruby-base is the text (its ruby-text annotation carries no token).
+InlineBoxes == {"link", "ins", "sdt", "smartTag", "fldSimple", "bdo"}
+NestedWrappers(f) ==
+    IF f = "docx"
+    THEN {"smartTag", "fldSimple", "bdo", "sdt>sdt", "bdo>link>ins", "ins>link>sdt", "link>sdt>ins", "sdt>link>smartTag"}
+         \cup {"link>ins", "link>sdt", "link>smartTag", "link>fldSimple", "link>bdo",
+               "ins>link", "sdt>link", "smartTag>link", "fldSimple>link", "bdo>link",
+               "ins>sdt", "sdt>ins", "smartTag>ins", "sdt>smartTag", "bdo>sdt", "fldSimple>ins"}
+    ELSE {"span>link", "link>span", "span>span", "span>link>span", "ruby", "span>ruby", "link>ruby"}
 \* "eh" / "ef": the text of the header / footer line (w901 / w902) written in the body - a
 \* body paragraph that equals a header / footer line (used by the history documents)
 InlineAtoms(f) == IF f = "docx" THEN {"t", "sym", "tab", "br"} ELSE {"t", "tab", "br", "s"}
@@ -187,7 +200,8 @@ DelTok == 903
 BlockOK(f, b) ==
     /\ b.k \in {"P", "H", "LI", "TBL", "S"} \cup Brackets
     \* a table may wrap the paragraphs of every cell in a content control / a section
-    /\ b.k = "TBL" => TblOK(b.tb) /\ b.ch = <<>> /\ b.how \in {"", IF f = "docx" THEN "cellsdt" ELSE "cellsec"}
+    \* ("cellnest": the run of every cell's first paragraph sits in nested inline containers)
+    /\ b.k = "TBL" => TblOK(b.tb) /\ b.ch = <<>> /\ b.how \in {"", IF f = "docx" THEN "cellsdt" ELSE "cellsec", "cellnest"}
     /\ b.k \in Brackets => (b.ch = <<>> /\ b.tb = NoTbl)
     /\ b.k = "WO" => b.how \in WrapKinds(f)
     /\ b.k = "WC" => b.how = ""
@@ -195,7 +209,7 @@ BlockOK(f, b) ==
     /\ b.k \notin Brackets \cup {"TBL"} =>
           /\ b.tb = NoTbl
           /\ Len(b.ch) >= 1
-          /\ \A i \in 1..Len(b.ch) : /\ b.ch[i].w \in Wrappers(f)
+          /\ \A i \in 1..Len(b.ch) : /\ b.ch[i].w \in Wrappers(f) \cup NestedWrappers(f)
                                      /\ Len(b.ch[i].a) >= 1
                                      /\ \A j \in 1..Len(b.ch[i].a) : b.ch[i].a[j] \in Atoms(f)
           \* no token-less paragraphs, except the echo of the header / footer line, which is
